@@ -275,61 +275,7 @@ func verifySites(c *an.Ctx) {
 				n++
 				kt := fi.Term(call.Call.Args[0])
 				key := an.KeyOf(fn, "verify-key:"+short(kt.Key()))
-				class := ""
-				okc := false
-				why := ""
-				if f, _, isF := mapFieldOfTerm(kt); isF {
-					switch f {
-					case "gcaPubkey":
-						class = "registered GCA key"
-						// must have been read under the lock: the load instruction
-						okc = loadUnderLock(p, fn, kt, "GCAServer.mu")
-						why = "read of gcaPubkey under GCAServer.mu"
-					case "gcaTempKey":
-						class = "temporary key"
-						// only in a function that (transitively) stores the GCA key: the registration
-						e := p.Effect(fn)
-						okc = false
-						for _, w := range e.WritesSorted() {
-							if strings.Contains(w, "gcaPubkey") {
-								okc = true
-							}
-						}
-						why = "temporary key used only on the registration path"
-						if !okc {
-							// unused helper? accept if the function has no callers
-							if len(p.CallSites(fn)) == 0 && fn.Object() != nil && !fn.Object().Exported() {
-								okc = true
-								why = "function has no callers (dead code)"
-							}
-						}
-					}
-				} else if kt.K == an.KField && kt.S == "PublicKey" {
-					class = "looked-up device key"
-					kt.Walk(func(t *an.Term) {
-						if t.K == an.KLkOK || t.K == an.KLookup {
-							if f2, _, ok := mapFieldOfTerm(t.A[0]); ok && f2 == "equipment" {
-								okc = true
-							}
-						}
-					})
-					why = "public key of equipment[id]"
-				} else if kt.K == an.KField && kt.S == "NewGCA" {
-					class = "new GCA of a migration order"
-					// the outer order must be verified under the registered key first
-					for _, va := range verifyFacts(fi.FactsAt(call)) {
-						if kt2 := va[0]; kt2.Val != nil {
-							if inFn, ok := kt2.Val.(ssa.Instruction); ok && inFn.Parent() == fn {
-								// a local copy of gcaPubkey read under the lock
-								okc = true
-							}
-						}
-						if f, _, ok := mapFieldOfTerm(va[0]); ok && f == "gcaPubkey" {
-							okc = true
-						}
-					}
-					why = "inner signatures are checked after the outer signature under the registered key"
-				}
+				class, okc, why := classifyVerifyKey(p, fn, call, kt, 0)
 				if class == "" {
 					c.Violated("KEYS", fn, call.Pos(), key, "glow.Verify is called with a key that is none of: registered GCA key, temporary key, looked-up device key, new GCA of a verified migration order", "key "+short(kt.Key()))
 					continue
@@ -340,6 +286,98 @@ func verifySites(c *an.Ctx) {
 	}
 	c.Count("KEYS", n)
 	c.Floor("KEYS", 3)
+}
+
+// classifyVerifyKey names the class of the key of a glow.Verify call and says whether it is used legitimately.
+// A key that is a parameter of a helper is classified at every call site of the helper.
+func classifyVerifyKey(p *an.Program, fn *ssa.Function, call *ssa.Call, kt *an.Term, depth int) (class string, okc bool, why string) {
+	fi := p.Info(fn)
+	if kt.K == an.KParam && depth < 3 {
+		idx := -1
+		for i, prm := range fn.Params {
+			if fi.Term(prm).Key() == kt.Key() {
+				idx = i
+			}
+		}
+		sites := p.CallSites(fn)
+		if idx < 0 || len(sites) == 0 {
+			return "", false, ""
+		}
+		okc = true
+		for _, s := range sites {
+			sc, isCall := s.(*ssa.Call)
+			if !isCall || idx >= len(sc.Call.Args) {
+				return "", false, ""
+			}
+			cfn := sc.Parent()
+			cl, ok2, w := classifyVerifyKey(p, cfn, sc, p.Info(cfn).Term(sc.Call.Args[idx]), depth+1)
+			if cl == "" {
+				return "", false, ""
+			}
+			class, why = cl, w+" (key passed to the helper "+an.FuncName(fn)+" by "+an.FuncName(cfn)+")"
+			okc = okc && ok2
+		}
+		return class, okc, why
+	}
+	if f, _, isF := mapFieldOfTerm(kt); isF {
+		switch f {
+		case "gcaPubkey":
+			return "registered GCA key", loadUnderLock(p, fn, kt, "GCAServer.mu"), "read of gcaPubkey under GCAServer.mu"
+		case "gcaTempKey":
+			// only on the registration path: the function, or every caller of it, (transitively) stores the GCA key
+			var onPath func(f *ssa.Function, d int) bool
+			onPath = func(f *ssa.Function, d int) bool {
+				for _, w := range p.Effect(f).WritesSorted() {
+					if strings.Contains(w, "gcaPubkey") {
+						return true
+					}
+				}
+				sites := p.CallSites(f)
+				if len(sites) == 0 || d >= 2 {
+					return false
+				}
+				for _, s := range sites {
+					if !onPath(s.Parent(), d+1) {
+						return false
+					}
+				}
+				return true
+			}
+			if onPath(fn, 0) {
+				return "temporary key", true, "temporary key used only on the registration path"
+			}
+			if len(p.CallSites(fn)) == 0 && fn.Object() != nil && !fn.Object().Exported() {
+				return "temporary key", true, "function has no callers (dead code)"
+			}
+			return "temporary key", false, "temporary key used only on the registration path"
+		}
+		return "", false, ""
+	}
+	if kt.K == an.KField && kt.S == "PublicKey" {
+		kt.Walk(func(t *an.Term) {
+			if t.K == an.KLkOK || t.K == an.KLookup {
+				if f2, _, ok := mapFieldOfTerm(t.A[0]); ok && f2 == "equipment" {
+					okc = true
+				}
+			}
+		})
+		return "looked-up device key", okc, "public key of equipment[id]"
+	}
+	if kt.K == an.KField && kt.S == "NewGCA" {
+		// the outer order must be verified under the registered key first
+		for _, va := range verifyFacts(fi.FactsAt(call)) {
+			if kt2 := va[0]; kt2.Val != nil {
+				if inFn, ok := kt2.Val.(ssa.Instruction); ok && inFn.Parent() == fn {
+					okc = true
+				}
+			}
+			if f, _, ok := mapFieldOfTerm(va[0]); ok && f == "gcaPubkey" {
+				okc = true
+			}
+		}
+		return "new GCA of a migration order", okc, "inner signatures are checked after the outer signature under the registered key"
+	}
+	return "", false, ""
 }
 
 // loadUnderLock: the load instruction that produced term t ran with the lock held.
